@@ -133,6 +133,7 @@ class Interp:
         self.loop_of = {}
         self.summary = Summary()
         self.unk_reason = {}
+        self.unk_region = {}
         self.reg_block = {}
         self.exit_subst = {}  # loop id -> {iv atom: Lin}
         self.ptr_class = {}  # mem atom -> 'TABLE' | 'DATA'
@@ -141,10 +142,12 @@ class Interp:
         self.ptr_args = set()
 
     # ------------------------------------------------------------------------------------------
-    def unk(self, why):
+    def unk(self, why, region=None):
         self.nunk += 1
         a = ("unk", self.nunk)
         self.unk_reason[a] = why
+        if region is not None:
+            self.unk_region[a] = region
         return atom(a)
 
     # ------------------------------------------------------------------------------------------
@@ -602,7 +605,7 @@ class Interp:
                 return const(val & ((1 << (8 * size)) - 1))
         reg = self.region_of(addr)
         if reg in mem.havoc:
-            return self.unk("load from havoced region %s" % (reg,))
+            return self.unk("load from havoced region %s" % (reg,), region=reg)
         aliases = []
         for (a2, s2), v in mem.w.items():
             if self.may_overlap(addr, size, a2, s2, reg):
@@ -614,8 +617,8 @@ class Interp:
                     if reg[0] == "TABLE" and size == 8 and s2 == 8:
                         aliases.append((a2, v))
                         continue
-                    return self.unk("load %s may alias earlier store %s" % (show(addr), show(a2)))
-                return self.unk("partial overlap")
+                    return self.unk("load %s may alias earlier store %s" % (show(addr), show(a2)), region=reg)
+                return self.unk("partial overlap", region=reg)
         if aliases:
             m2 = Mem({k: v for k, v in mem.w.items() if k[0] not in [a for a, _ in aliases]}, mem.segs, mem.bulk,
                      mem.havoc, mem.lsegs)
@@ -630,18 +633,22 @@ class Interp:
             if r == "outside":
                 continue
             if r is None:
-                return self.unk("load %s vs segment write of loop %d undecided" % (show(addr), sg.loop))
+                return self.unk("load %s vs segment write of loop %d undecided" % (show(addr), sg.loop), region=reg)
             if isinstance(r, tuple) and r[0] == "cond":
                 # γ(in range, segment value, whatever lies underneath)
                 m2 = Mem(mem.w, [x for x in mem.segs if x is not sg and mem.segs.index(x) > mem.segs.index(sg)], mem.bulk, mem.havoc, mem.lsegs)
                 under = self.load(m2, addr, size, ty, inst)
                 return mk_gamma(r[1], r[2], under)
             return r
-        for (saddr, ssize, lid, sev) in mem.lsegs:
+        for lsi, (saddr, ssize, lid, sev) in enumerate(mem.lsegs):
             r = self.lseg_check(addr, size, saddr, ssize, lid, sev, inst, reg)
             if r == "skip":
                 continue
-            return self.unk("load %s in loop %d reads a location written in an earlier iteration or undecided (%s)" % (show(addr), lid, r))
+            if isinstance(r, tuple) and r[0] == "cond":
+                m2 = Mem(mem.w, mem.segs, mem.bulk, mem.havoc, tuple(x for x in mem.lsegs if x is not mem.lsegs[lsi]))
+                ahead = self.load(m2, addr, size, ty, inst, depth + 1)
+                return mk_gamma(r[1], ahead, self.unk("load %s in loop %d may read a location written in an earlier iteration" % (show(addr), lid), region=reg))
+            return self.unk("load %s in loop %d reads a location written in an earlier iteration or undecided (%s)" % (show(addr), lid, r), region=reg)
         for bi in range(len(mem.bulk) - 1, -1, -1):
             (dst, n, rg, tag) = mem.bulk[bi][:4]
             if self.regions_disjoint(reg, rg):
@@ -667,11 +674,20 @@ class Interp:
                 # not covered by the copy: whatever was there when the copy happened
                 under = self.load(snap, addr, size, ty, inst, depth + 1)
                 return mk_gamma(inr, inside, under)
-            return self.unk("load %s after bulk write %s" % (show(addr), tag))
+            return self.unk("load %s after bulk write %s" % (show(addr), tag), region=reg)
         a = ("mem", addr, size)
         if ty is not None and ty.kind == "ptr":
-            e = ty.elem
-            cls = "TABLE" if (e.kind == "int" and e.bits == 64) else "DATA"
+            tf = self.opts.get("table_fields")
+            if tf is not None:
+                # the caller knows which container fields hold the address table (discovered from the
+                # constructor summary): classification does not depend on the pointer's static type
+                cls = "DATA"
+                r0, off0 = self.root_of(addr)
+                if r0 is not None and r0[0] == "arg" and off0 is not None and off0.is_const() and (r0[1], off0.c) in tf:
+                    cls = "TABLE"
+            else:
+                e = ty.elem
+                cls = "TABLE" if (e.kind == "int" and e.bits == 64) else "DATA"
             self.ptr_class.setdefault(a, cls)
         return atom(a)
 
@@ -711,6 +727,12 @@ class Interp:
         advS, S0 = sa
         D = (L0 - S0).const()
         if D is None:
+            # same stride, symbolic distance m = (L0 - S0)/adv iterations: the store that hits the location
+            # read now happens m iterations later - harmless when m >= 1
+            dl = L0 - S0
+            if advL == advS and advL != 0 and size == ssize and dl.c % advL == 0 and all(k % advL == 0 for _, k in dl.t):
+                m = Lin(dl.c // advL, [(t, k // advL) for t, k in dl.t])
+                return ("cond", c_cmp("sle", const(1), m))
             return "symbolic distance"
         if advL != advS or advL == 0:
             if advL == 0 and advS == 0:
@@ -773,7 +795,7 @@ class Interp:
             return "outside"
         if d1 is not None and d2 is not None and d1 >= 0 and d2 >= 0 and (d1 % abs(step) == 0):
             if sg.value is None:
-                return self.unk("variant segment value")
+                return self.unk("variant segment value", region=sg.region)
             return self.subst_atoms(sg.value, {sg.iv: j})
         dj = j - lo
         if abs(step) == 1 or (dj.c % abs(step) == 0 and all(cc % abs(step) == 0 for _, cc in dj.t)):
@@ -783,7 +805,7 @@ class Interp:
             dh = hi - j
             e2 = Lin(dh.c // st, [(t, cc // st) for t, cc in dh.t]) if (st != 1 and dh.c % st == 0 and all(cc % st == 0 for _, cc in dh.t)) else dh
             inr = c_and(c_cmp("sle", ZERO, e1), c_cmp("sle", ZERO, e2), sg.guard if sg.guard is not None else TRUE)
-            inside = self.unk("variant segment value") if sg.value is None else self.subst_atoms(sg.value, {sg.iv: j})
+            inside = self.unk("variant segment value", region=sg.region) if sg.value is None else self.subst_atoms(sg.value, {sg.iv: j})
             return ("cond", inr, inside)
         return None
 
@@ -793,7 +815,7 @@ class Interp:
             if (a2, s2) == (addr, size):
                 continue
             if self.may_overlap(addr, size, a2, s2, reg):
-                mem.w[(a2, s2)] = self.unk("clobbered by store to %s" % show(addr))
+                mem.w[(a2, s2)] = self.unk("clobbered by store to %s" % show(addr), region=self.region_of(a2))
         mem.w[(addr, size)] = value
 
     def bulk_write(self, mem, dst, n, tag, copy_from=None, fill=None):
@@ -822,7 +844,7 @@ class Interp:
             if copy_from is not None:
                 doomed.append((a2, s2))  # answered through the copy record (snapshot below)
             else:
-                mem.w[(a2, s2)] = self.unk("clobbered by bulk write %s" % tag)
+                mem.w[(a2, s2)] = self.unk("clobbered by bulk write %s" % tag, region=r2)
         snap = None
         if copy_from is not None:
             snap = (copy_from, mem.copy())
@@ -1500,7 +1522,7 @@ class Interp:
             inv = not self.depends_on_loop(addr, li)
             if size is not None and inv:
                 # invariant address: unknown during the loop
-                mem.w[(addr, size)] = self.unk("modified in loop %d" % li.id)
+                mem.w[(addr, size)] = self.unk("modified in loop %d" % li.id, region=r)
             # entries already in mem that may alias
             for (a2, s2) in list(mem.w.keys()):
                 if (a2, s2) == (addr, size):
@@ -1513,7 +1535,7 @@ class Interp:
                     continue
                 if d is None and self._nonneg_form(addr - a2 - s2):
                     continue  # the entry lies in front of everything the loop writes
-                mem.w[(a2, s2)] = self.unk("may be modified in loop %d" % li.id)
+                mem.w[(a2, s2)] = self.unk("may be modified in loop %d" % li.id, region=r2)
         # loads of not-yet-seen locations in a stored region: handled through bulk marker
         for (addr, size, value, e) in stores:
             r = self.region_of(addr)
